@@ -75,7 +75,7 @@ Print Assumptions C18_name_spellings_agree.
 (* omitting the leading `$`: for every path of name / index / wildcard / slice steps (each step after the first
    possibly after `..`) the text without `$` (KeyDefs.chain_path0: the first step written bare) is accepted and
    returns the same results as the text with it, or both fail *)
-From JP Require Import IdxParse SliceParse WildParse RecParse ChainParse ChainAddr NoDollar NoDollarAddr.
+From JP Require Import IdxParse SliceParse UnionParse WildParse RecParse ChainParse ChainAddr NoDollar NoDollarAddr.
 Theorem C18_dollar_optional : forall cfg parse_float regex_ok ffun afun regex_match,
   (forall f v w, small v -> ffun f v = Some w -> small w) ->
   (forall f l w, Forall small l -> afun f l = Some w -> small w) ->
